@@ -365,36 +365,39 @@ class Dispatch(Contract):
             A, b = object(), object()
             r = p.calculate_residual(A, b)
             res.append({"name": f"calculate_residual_forwards_arguments_and_result[{key}]", "ok": len(log) == 1 and log[0][0] is A and log[0][1] is b and r == ("clp", "res"), "detail": "", "function": "EstimationProvider.calculate_residual"})
-            # histories: the result of a call depends on that call's arguments only (no memo keyed by object identity,
-            # shape or closeness of earlier arguments): same matrix object, same data object mutated in place, equal
-            # and nearly equal data (tiny scale, within np.allclose of each other), interleaved with another matrix
+            # histories: the result of a call is the residual function's value for that call's arguments, whatever was
+            # asked before (a memo keyed by object identity, shape or *closeness* of earlier arguments is wrong; one
+            # keyed by the exact contents would be right and passes): same matrix object, equal and nearly equal data
+            # (tiny scale, within np.allclose of each other), another matrix in between, data mutated in place
             import numpy as np
 
             p = ep.EstimationProvider(G(key))
-            log = []
 
             def stub(m, d):
-                log.append((m, np.array(d, copy=True)))
-                return ("clp", len(log)), ("res", len(log))
+                k = hash((np.asarray(m).tobytes(), np.asarray(d).tobytes()))
+                return ("clp", k), ("res", k)
 
             p._residual_function = stub
-            M1, M2 = np.ones((3, 2)), np.ones((3, 2))
+            M1, M2 = np.ones((3, 2)), np.ones((3, 2)) * 2.0
             d = np.array([1e-9, 2e-9, 3e-9])
-            hist = [(M1, d.copy()), (M1, d * 1.5), (M1, d.copy()), (M2, d.copy()), (M1, d * (1 + 1e-7)), (M1, np.zeros(3)), (M1, np.full(3, 1e-12))]
+            hist = [(M1, d.copy()), (M1, d * 1.5), (M1, d.copy()), (M2, d.copy()), (M1, d * (1 + 1e-7)), (M1, np.zeros(3)), (M1, np.full(3, 1e-12)), (M1, d.copy())]
             ok, detail = True, ""
             for k, (m, dd) in enumerate(hist):
-                r = p.calculate_residual(m, dd)
-                if not (len(log) == k + 1 and log[-1][0] is m and np.array_equal(log[-1][1], dd) and r == (("clp", k + 1), ("res", k + 1))):
-                    ok, detail = False, f"call {k} of the history answered without evaluating the residual function on its own arguments"
+                if p.calculate_residual(m, dd) != stub(m, dd):
+                    ok, detail = False, f"call {k} of the history was not answered with the residual function's value for its own arguments"
                     break
             if ok:
                 buf = d.copy()
-                n0 = len(log)
                 p.calculate_residual(M1, buf)
                 buf *= 3.0  # same data object, new content
-                r = p.calculate_residual(M1, buf)
-                ok = len(log) == n0 + 2 and np.array_equal(log[-1][1], buf) and r == (("clp", n0 + 2), ("res", n0 + 2))
+                ok = p.calculate_residual(M1, buf) == stub(M1, buf)
                 detail = "" if ok else "data object mutated in place between calls answered from an earlier call"
+            if ok:
+                Mm = np.ones((3, 2))
+                p.calculate_residual(Mm, d)
+                Mm[0, 0] = 5.0  # same matrix object, new content
+                ok = p.calculate_residual(Mm, d) == stub(Mm, d)
+                detail = "" if ok else "matrix object mutated in place between calls answered from an earlier call"
             res.append({"name": f"calculate_residual_is_history_independent[{key}]", "ok": ok, "detail": detail, "function": "EstimationProvider.calculate_residual", "strength": "B"})
         try:
             ep.EstimationProvider(G("least_absolute"))
